@@ -15,6 +15,7 @@ import (
 	"sort"
 	"strings"
 	"testing"
+	"time"
 
 	"go.uber.org/zap"
 	"go.uber.org/zap/zapcore"
@@ -58,6 +59,16 @@ func vSettings(w *vWorld, cfg vCfg) (Settings, Config) {
 	return set, conf
 }
 
+// vDumpConf: the parts of the service configuration the property is about, list order preserved
+func vDumpConf(conf Config) string {
+	var l []string
+	for id, p := range conf.Pipelines {
+		l = append(l, fmt.Sprintf("%s r=%v p=%v e=%v", id.String(), p.Receivers, p.Processors, p.Exporters))
+	}
+	sort.Strings(l)
+	return fmt.Sprintf("x=%v;%s", conf.Extensions, strings.Join(l, ";"))
+}
+
 func vErrClass(err error) string {
 	msg := err.Error()
 	switch {
@@ -86,12 +97,30 @@ func vNew(set Settings, cfg Config) (srv *Service, err error) {
 }
 
 func vCall(f func(context.Context) error) (err error, panicked string) {
+	return vCallCtx(0, f)
+}
+
+// vCallCtx: the call with a live (0), already cancelled (1) or deadline-expired (2) context. The collector hands Service.Shutdown the
+// context of Run, which IS cancelled when the collector stops because that context was cancelled (otelcol/collector.go Run:
+// `case <-ctx.Done(): return col.shutdown(ctx)`); start-up order, shutdown order and exactly-once must not depend on it.
+func vCallCtx(mode int, f func(context.Context) error) (err error, panicked string) {
 	defer func() {
 		if r := recover(); r != nil {
 			err, panicked = fmt.Errorf("panic: %v", r), fmt.Sprint(r)
 		}
 	}()
-	return f(context.Background()), ""
+	ctx := context.Background()
+	switch mode {
+	case 1:
+		c, cancel := context.WithCancel(ctx)
+		cancel()
+		ctx = c
+	case 2:
+		c, cancel := context.WithDeadline(ctx, time.Unix(1, 0))
+		defer cancel()
+		ctx = c
+	}
+	return f(ctx), ""
 }
 
 func vLogString(log []vEv) string {
@@ -222,11 +251,28 @@ func TestVerifC10Lifecycle(t *testing.T) {
 						out.Linef("op failcreate %s", k)
 					}
 				}
+				// 3%: the factory of one listed extension fails inside service.New (extensions.New runs after graph.Build: the pipeline
+				// components exist by then); New must return the error and nothing may be started
+				if c >= ncorpus && len(cfg.exts) > 0 && rnd.IntN(33) == 0 {
+					k := fmt.Sprintf("x%d", cfg.exts[rnd.IntN(len(cfg.exts))].id)
+					w.failCreate[k] = true
+					out.Linef("op failcreate %s", k)
+					out.Linef("stat ext_factory_failure 1")
+				}
 				set, conf := vSettings(w, cfg)
+				// service.New must not modify the configuration it is given (the collector validates, builds and - on a reload - rebuilds
+				// from configuration values): pipelines (lists in order) and service::extensions are dumped before and after
+				confBefore := vDumpConf(conf)
 				srv, err := vNew(set, conf)
+				if after := vDumpConf(conf); after != confBefore {
+					out.Linef("viol sig=C10/new/new-changed-the-configuration before=%s after=%s", vHex(confBefore), vHex(after))
+				}
 				if err != nil {
 					cls := vErrClass(err)
 					out.Linef("obs new err=%s", cls)
+					if cls == "extcycle" || cls == "extmissing" {
+						out.Linef("tr extmsg %s", vExtMsgTokens(err.Error()))
+					}
 					if len(w.log) > 0 {
 						out.Linef("viol sig=C10/reject/component-started-though-build-failed %s", vHex(vLogString(w.log)))
 					}
@@ -303,16 +349,39 @@ func TestVerifC10Lifecycle(t *testing.T) {
 					out.Linef("op failready %s", l)
 					w.failReady[l] = true
 				}
+				// hook of Service.Shutdown: PipelineWatcher.NotReady (every watcher is called, errors are collected, nothing stops)
+				var fnotready []string
+				if len(w.exts) > 0 && rnd.IntN(8) == 0 {
+					fnotready = append(fnotready, w.exts[rnd.IntN(len(w.exts))])
+					if len(w.exts) > 1 && rnd.IntN(3) == 0 {
+						fnotready = vAddLabel(fnotready, w.exts[rnd.IntN(len(w.exts))])
+					}
+				}
+				for _, l := range fnotready {
+					out.Linef("op failnotready %s", l)
+					w.failNotReady[l] = true
+				}
 				out.Linef("op run")
 				// otelcol/collector.go: setupConfigurationComponents calls Start and, when it fails, shutdown();
 				// otherwise shutdown() runs when the collector exits. Either way Shutdown is called exactly once.
-				startErr, startPanic := vCall(srv.Start)
+				// the contexts of Start / Shutdown as a dimension (own random stream): Start 15% cancelled or expired, Shutdown 40%
+				rc := vRand(c + 5<<24 + lt<<16)
+				startMode, stopMode := 0, 0
+				if rc.IntN(20) < 3 {
+					startMode = 1 + rc.IntN(2)
+				}
+				if rc.IntN(10) < 4 {
+					stopMode = 1 + rc.IntN(2)
+				}
+				out.Linef("stat ctx_start_%d 1", startMode)
+				out.Linef("stat ctx_stop_%d 1", stopMode)
+				startErr, startPanic := vCallCtx(startMode, srv.Start)
 				var stopErr error
 				var stopPanic string
 				if startErr != nil {
-					stopErr, stopPanic = vCall(srv.Shutdown)
+					stopErr, stopPanic = vCallCtx(stopMode, srv.Shutdown)
 				} else {
-					stopErr, stopPanic = vCall(srv.Shutdown)
+					stopErr, stopPanic = vCallCtx(stopMode, srv.Shutdown)
 				}
 
 				var stops, stopFails, startLog, stopLog []string
@@ -329,6 +398,8 @@ func TestVerifC10Lifecycle(t *testing.T) {
 						startLog = append(startLog, e.kind+"."+e.label+"="+res)
 					case "stop", "istop":
 						stopLog = append(stopLog, e.label+"="+res)
+					case "notready":
+						stopLog = append(stopLog, e.kind+"."+e.label+"="+res)
 					}
 					if e.kind == "stop" || e.kind == "istop" {
 						stops = append(stops, e.label)
@@ -373,7 +444,7 @@ func TestVerifC10Lifecycle(t *testing.T) {
 				// topological orders reconstructed from this very log (the driver checks them with isTopoB)
 				out.Linef("obs startlog %d %s", len(startLog), strings.Join(startLog, " "))
 				out.Linef("obs stoplog %d %s", len(stopLog), strings.Join(stopLog, " "))
-				if usesConn || extDep || len(fstart)+len(fstop)+len(fnotify)+len(fready) > 0 || (cfg.shared != 0 || cfg.sharedExp != 0 || cfg.sharedConn != 0) {
+				if usesConn || extDep || len(fstart)+len(fstop)+len(fnotify)+len(fready)+len(fnotready) > 0 || (cfg.shared != 0 || cfg.sharedExp != 0 || cfg.sharedConn != 0) {
 					out.Linef("nt")
 				}
 				out.Linef("stat built 1")
@@ -381,6 +452,7 @@ func TestVerifC10Lifecycle(t *testing.T) {
 					out.Linef("stat startfail 1")
 				}
 				out.Linef("stat stopfail %d", len(stopFails))
+				out.Linef("stat notready_fail %d", len(fnotready))
 				if cfg.shared != 0 || cfg.sharedExp != 0 || cfg.sharedConn != 0 {
 					out.Linef("stat shared 1")
 				}
